@@ -92,12 +92,17 @@ def brute(edges, fr, am, energy):
     return H, H1
 
 
-def oracle(edges, fr, am, layout='C'):
+def oracle(edges, fr, am, layout='C', fdtype=None):
+    """fdtype: the frequency array is handed over in that dtype (float32 / int64); `fr` then holds the float64 values its
+    elements denote, so the per-sample histogram is the same question"""
     from emd import spectra
     fails = []
     e = np.array(edges, dtype=float)
     f = np.array(fr, dtype=float)
     a = np.array(am, dtype=float)
+    if fdtype:
+        f = f.astype(fdtype)
+        assert np.array_equal(f.astype(float), np.array(fr, dtype=float))
     if layout == 'F':          # the same values, Fortran-ordered in memory (what a transposed [M x T] stack looks like)
         f, a = np.asfortranarray(f), np.asfortranarray(a)
     f0, a0 = f.copy(), a.copy()
@@ -125,6 +130,34 @@ def oracle(edges, fr, am, layout='C'):
     return fails
 
 
+def real_cases(ctx, n):
+    """fractional bin edges with frequency arrays of dtype float64 / float32 / int64 whose values sit on, one unit in the last
+    place (of their own dtype) beside, and between the edges; amplitudes small integers (sums exact)"""
+    rs = np.random.RandomState(ctx.seed * 19 + 6)
+    out = []
+    for i in range(n):
+        nb = int(rs.choice([1, 3, 7, 10]))
+        dt = ['float64', 'float32', 'int64'][i % 3]
+        if dt == 'int64':
+            lo = int(rs.randint(0, 3))
+            e = np.cumsum(np.r_[lo + 0.5, rs.randint(1, 4, nb)]).astype(float)
+            cand = np.arange(lo - 1, int(e[-1]) + 3).astype(float)
+        else:
+            e = np.linspace(0, 1, nb + 1) if i % 2 else np.logspace(-2, 0, nb + 1)
+            ft = np.float32 if dt == 'float32' else np.float64
+            c = []
+            for v in e:
+                v0 = ft(v)
+                c += [v0, np.nextafter(v0, ft(2)), np.nextafter(v0, ft(-2))]
+            c += [ft(x) for x in (e[:-1] + e[1:]) / 2] + [ft(-0.25), ft(1.5)]
+            cand = np.array(c).astype(float)
+        T, M = int(rs.randint(1, 7)), int(rs.randint(1, 4))
+        fr = rs.choice(cand, size=(T, M))
+        am = rs.randint(-2, 6, size=(T, M)).astype(float)
+        out.append((e.tolist(), fr.tolist(), am.tolist(), dt))
+    return out
+
+
 def lit(c):
     _, edges, fr, am = c
     return '(%s, %s, %s)' % (zlist(edges), zlistlist(fr), zlistlist(am))
@@ -141,7 +174,7 @@ def nontrivial(edges, fr):
 def run(ctx):
     ctx.rule = ('integer frequency/amplitude arrays [time x IMFs]; frequencies drawn from {below first edge, negative, each '
                 'edge, each mid-bin, last edge, above} for linear and log bin sets with 1..4 bins: every assignment for '
-                '<= 2 cells, random larger arrays; energy+amplitude, dense+sparse+1-D; non-trivial = has an out-of-range '
+                '<= 2 cells, random larger arrays (C- and Fortran-ordered); fractional linear / log / half-integer edges with float64 / float32 / int64 frequency arrays whose values sit on, one ulp beside and between the edges (oracle only); energy+amplitude, dense+sparse+1-D; non-trivial = has an out-of-range '
                 'or an on-edge frequency')
     ctx.proof(extra=['props/Prop_Tie_Spectra.v', 'props/Prop_Tie_Misc.v'])  # translation tie: program regenerated from the source + refinement theorems
     cases = gen_cases(ctx)
@@ -165,6 +198,13 @@ def run(ctx):
                         tags=dict(below_range=any(x < edges[0] for x in flat)))
         if common.hashL(out) != mh[idx] and bad is None and not fails:
             bad = idx
+    # real-valued edges x frequency dtypes (oracle only: the model is over integers)
+    for i, (e, fr, am, dt) in enumerate(real_cases(ctx, 150 if ctx.quick() else 6000)):
+        ctx.count(('real', tuple(e), repr(fr), dt), True, 'real-edges-%s' % dt)
+        ctx.exact_cmp += 1
+        for site, detail in oracle(e, fr, am, 'CF'[i % 2], None if dt == 'float64' else dt)[:1]:
+            ctx.problem('impl-violation', site, '(frequencies of dtype %s) %s' % (dt, detail[:500]),
+                        input=dict(freq_edges=e, infr=fr, inam=am, layout='CF'[i % 2], fdtype=dt), tags=dict(below_range=False))
     if bad is not None:
         kind, edges, fr, am = cases[bad]
         mo = ctx.model_outputs(IMPORTS, [lit(cases[bad])], EXPR)[0]
@@ -175,7 +215,7 @@ def run(ctx):
 
 def replay(rec):
     i = rec['input']
-    fails = oracle(i['freq_edges'], i['infr'], i['inam'], i.get('layout', 'C'))
+    fails = oracle(i['freq_edges'], i['infr'], i['inam'], i.get('layout', 'C'), None if i.get('fdtype') in (None, 'float64') else i['fdtype'])
     for f in fails:
         print(f)
     return bool(fails)
